@@ -549,6 +549,28 @@ def classify(answer, info, doc=None):
     return None
 
 
+def same_definition_corpus():
+    """the SAME column definition (alias + expression) declared independently in several relations of one query: a let-table and the
+    main pipeline, the main pipeline and an inline join / append side, two lets, a let and a loop body ... - every relation has to
+    define its own column ids (seed independent)"""
+    exprs = ['"staff"', "1", "true", "null", "@2020-01-01", "1.5", "a", "a + 1", "f\"x{a}\"", "case [a > 1 => 1, true => 0]", "s\"1\"", "-a", "(a ?? 0)"]
+    out = []
+    for e in exprs:
+        d = f"derive {{kind = {e}}}"
+        dd = f"derive {{kind = {e}, other = {e}}}"
+        out += [
+            f"let emp = (from t | {d} | select {{a, kind}})\nfrom u | {d} | select {{a, kind}} | append emp",
+            f"let emp = (from t | {d} | select {{a, kind}})\nfrom u | {d} | join emp (==a) | select {{u.a, u.kind, k2 = emp.kind}}",
+            f"from t | {d} | join side:left s = (from u | {d} | select {{a, k = kind}}) (==a) | select {{t.a, kind, s.k}}",
+            f"from t | {d} | select {{a, kind}} | append (from u | {d} | select {{a, kind}})",
+            f"let x = (from t | {d} | select {{a, kind}})\nlet y = (from u | {d} | select {{a, kind}})\nfrom x | append y",
+            f"let x = (from t | {d} | select {{a, kind}})\nlet y = (from x | {d} | select {{a, kind}})\nfrom y | join x (==a)",
+            f"from t | {dd} | select {{a, kind, other}} | append (from u | {dd} | select {{a, kind, other}})",
+            f"from t | {d} | group {{a}} (aggregate {{n = count this}}) | join side:left s = (from t | {d} | select {{a, kind}}) (==a)",
+        ]
+    return [DECL + p_ for p_ in out]
+
+
 def monitor(ctx, label, progs, rng, mutate_p):
     """progs: list of (origin, prql). Returns number of oracle failures."""
     ans = vh_batch([{"op": "rq", "prql": p} for _, p in progs])
@@ -649,6 +671,7 @@ def run(ctx):
     directed += random.Random(163).sample(dia, 250) if quick else dia
     directed += relgen.setop_cases(SAFE)
     nbad += monitor(ctx, "directed-shapes", [("relgen:directed", c.prql) for c in directed], fixed, 1.0)
+    nbad += monitor(ctx, "same-definition", [("same-definition", p_) for p_ in same_definition_corpus()], fixed, 0.3)
     for label, rng, n, prof in [("safe", fixed, 1000 if quick else 8000, SAFE), ("full", fixed, 1000 if quick else 8000, FULL),
                                 ("undeclared", fixed, 800 if quick else 6000, UNDECL),
                                 ("seed-tail-full", ctx.rng, 800 if quick else 8000, FULL),
